@@ -1326,6 +1326,82 @@ pub fn c03(rec: &RunRecord) -> Vec<Violation> {
     v
 }
 
+/// Reach probes of the oracles themselves (how often a conditional comparison was actually
+/// made); summed over all worker threads, reported in the evidence.
+pub static ORACLE_REACH: std::sync::Mutex<std::collections::BTreeMap<&'static str, u64>> = std::sync::Mutex::new(std::collections::BTreeMap::new());
+
+fn oracle_reach(name: &'static str, n: u64) {
+    if let Ok(mut m) = ORACLE_REACH.lock() {
+        *m.entry(name).or_insert(0) += n;
+    }
+}
+
+/// C03 with a second real tracer on the host: nothing of the neighbour's traffic completes
+/// a probe, and - on a quiet lossless network with long rounds - every round reports, hop
+/// by hop up to its path length, what the same run reports without the neighbour.
+#[must_use]
+pub fn c03_neighbour(rec: &RunRecord) -> Vec<Violation> {
+    let mut v = c03(rec);
+    if !rec.sc.alone_equal || rec.sc.neighbour.is_none() || !v.is_empty() || !matches!(rec.end, RunEnd::Ok) {
+        return v;
+    }
+    let mut alone_sc = rec.sc.clone();
+    alone_sc.neighbour = None;
+    let tape = simcore::Tape::from_values(rec.tape_record[rec.world_tape_start.min(rec.tape_record.len())..].to_vec());
+    let alone = crate::run::run_scenario(alone_sc, tape, crate::run::RunOpts { snapshots: false, clock_log: false });
+    if !matches!(alone.end, RunEnd::Ok) || alone.rounds.len() != rec.rounds.len() {
+        v.push(Violation::new(
+            "C03",
+            "c03.not-as-alone.rounds",
+            format!("with the neighbouring tracer {} rounds were published ({:?}), alone {} ({:?})", rec.rounds.len(), rec.end, alone.rounds.len(), alone.end),
+        ));
+        return v;
+    }
+    let view = |r: &crate::run::RoundRec| -> Vec<(u8, Option<IpAddr>)> {
+        let mut out: Vec<(u8, Option<IpAddr>)> = Vec::new();
+        for p in &r.probes {
+            match p {
+                ProbeStatus::Complete(c) if c.ttl.0 <= r.largest_ttl => out.push((c.ttl.0, Some(c.host))),
+                ProbeStatus::Awaited(a) if a.ttl.0 <= r.largest_ttl => out.push((a.ttl.0, None)),
+                _ => {}
+            }
+        }
+        out
+    };
+    let mut compared = 0u64;
+    for (k, (a, b)) in rec.rounds.iter().zip(&alone.rounds).enumerate() {
+        // a round cut off by the time limit got as far as the loop's timing allowed, which
+        // the extra wake-ups change; only rounds that reached the target are comparable
+        if a.reason != CompletionReason::TargetFound || b.reason != CompletionReason::TargetFound {
+            continue;
+        }
+        // ... and in which every hop up to the target had answered when the round ended (the
+        // target's replies to probes beyond its distance may end a round before the reply to
+        // the probe at its distance is read; which of them is read first is timing again)
+        if view(a).iter().any(|(_, h)| h.is_none()) || view(b).iter().any(|(_, h)| h.is_none()) {
+            continue;
+        }
+        compared += 1;
+        if a.largest_ttl != b.largest_ttl || view(a) != view(b) {
+            v.push(Violation::new(
+                "C03",
+                "c03.not-as-alone",
+                format!(
+                    "round {k}: with the neighbouring tracer the path is {:?} (length {}), alone it is {:?} (length {})",
+                    view(a),
+                    a.largest_ttl,
+                    view(b),
+                    b.largest_ttl
+                ),
+            ));
+            break;
+        }
+    }
+    oracle_reach("c03.rounds_compared_with_the_run_alone", compared);
+    oracle_reach("c03.runs_repeated_alone", 1);
+    v
+}
+
 /// C02: a probe's identity survives encode -> quote -> decode -> match; foreign quotations
 /// are never accepted.
 #[must_use]
